@@ -185,7 +185,14 @@ let run_case (a : string array) : string =
       let f6 = (match Lazy.force e.sz with
         | Some s -> (match spec_lookup s t with Some sl -> Z.abs sl.sl_off = z_of_int 86400 | None -> false)
         | None -> false) in
-      let out m s p = if f6 then Util.out m s p ^ " ; K F6" else Util.out m s p in
+      (* F15: a lossy item after the lossless one it duplicates (parse keeps the LAST value scanned for each field):
+         the format passes lossless_fmt but not the executable side condition of the round-trip theorem *)
+      let f15 = (match Lazy.force e.sz with
+        | Some s -> (match spec_lookup s t with
+                     | Some sl -> lossless_fmt fmt sl.sl_off sl.sl_cs.fy && not (last_writer_ok_x fmt sl.sl_off sl.sl_cs.fy)
+                     | None -> false)
+        | None -> false) in
+      let out m s p = if f6 then Util.out m s p ^ " ; K F6" else if f15 then Util.out m s p ^ " ; K F15" else Util.out m s p in
       let has_s = List.exists (fun tk -> match tk with FLib Ls -> true | _ -> false) (lex fmt) in
       out m ("1 " ^ string_of_z t ^ " " ^ (if has_s then "0" else string_of_z fs)) p
     end
